@@ -164,7 +164,7 @@ def r_cks_add(model, rep):
            msg="" if ok else "an absolute path must be refused before anything is stored")
 
 
-def r_cks_reader(model, rep, rule_id="R-CKS-DEFASSIGN"):
+def r_cks_reader(model, rep, rule_id="R-CKS-DEFASSIGN", format_only=False):
     f = model.own_method("treeinfo.Checksums", "deserialize")
     cx = facts.fctx(model, f)
     S = P(cx.selfname)
@@ -185,6 +185,15 @@ def r_cks_reader(model, rep, rule_id="R-CKS-DEFASSIGN"):
         rep.ob(rule_id, "Checksums.deserialize:pair", False, site=cx.site(e.lineno), msg="stored value is not a (type, value) pair")
         return
     value = ("idx", el, 1)
+    if format_only:
+        # round-trip clause only (C04): 'type:value' entries are split on ':' into (type, value)
+        sp = ("call", ("attr", value, "split"), (("const", ":"),), ())
+        t_alts = set(v[1][0][1]) if v[1][0][0] == "phi" else {v[1][0]}
+        d_alts = set(v[1][1][1]) if v[1][1][0] == "phi" else {v[1][1]}
+        ok = ("idx", sp, 0) in t_alts and ("idx", sp, 1) in d_alts
+        rep.ob(rule_id, "Checksums.deserialize:type:value", ok, site=cx.site(e.lineno),
+               msg="" if ok else "'<type>:<value>' entries must be split on ':' into (type, value)")
+        return
     # definite assignment per iteration: nothing carried over from a previous iteration / undefined
     stale = []
     for comp, label in ((v[1][0], "algorithm"), (v[1][1], "digest")):
